@@ -195,11 +195,14 @@ fn wide(args: &Args) -> i32 {
     // (cancel / zero deltas) and reached by a delta
     let top = u128::MAX;
     let half = 1u128 << 127;
-    for pure in [true, false] {
-        for l in [top, top - 1, top - 2, half, half - 1, half + 1] {
-            for op in [Op::Cancel, Op::Long(0), Op::Short(0), Op::Both(0, 0), Op::Long(1), Op::Short(1), Op::Long(-1), Op::Short(-1), Op::Both(1, -1)] {
+    for (pure, totals, ops) in [
+        (true, vec![top, top - 1, half], vec![Op::Cancel, Op::Long(0), Op::Short(0), Op::Long(1), Op::Short(1), Op::Short(-1), Op::Both(1, -1)]),
+        (false, vec![top, half + 1], vec![Op::Cancel, Op::Long(1), Op::Both(0, 0)]),
+    ] {
+        for l in totals {
+            for op in ops.iter() {
                 let mut p = new_pool(pure, l, if pure { 0 } else { 3 });
-                sink.emit(step(&mut p, op, true));
+                sink.emit(step(&mut p, *op, true));
                 emitted += 1;
             }
         }
